@@ -6,7 +6,8 @@
    rule of that name (C06_rules_before_use, for every project and selection, downloads, custom
    builds, LINK and POST_LINK included); every configured build's output file is a target of the
    file (C06_outputs_are_targets); the object, download-directory and tag-file paths that laze
-   chooses extend the build directory for relative sources and names (C06_objects_under_build_dir,
+   chooses extend the build directory — objects for every source path (an absolute one is made
+   relative first), downloads for relative names (C06_objects_under_build_dir,
    C06_downloads_under_build_dir). The executable predicate wf_manifestb (additionally: one
    statement per output, rules defined once, app outputs are targets) is evaluated on every file
    of the model and of the implementation; the one-producer-per-output clause is not a theorem —
@@ -61,7 +62,6 @@ Print Assumptions C06_outputs_are_targets.
    directories and their tag files extend <build-dir> (<build-dir>/dl/...) for relative dldir /
    relpath / module name *)
 Theorem C06_objects_under_build_dir : forall build_dir bn an shareable src h rout,
-  is_absolute (with_extension src (object_ext shareable h rout)) = false ->
   is_absolute bn = false -> is_absolute an = false ->
   exists rest, object_path (path_push build_dir (S_ "objects")) bn an shareable src h rout = build_dir ++ rest.
 Proof. exact object_under_build_dir. Qed.
